@@ -171,7 +171,13 @@ func compMaps(
 		return object.BuiltInFalse
 	}
 
-	for hash, pair1 := range *m1.Pairs {
+	// NOTE: compare in insertion order (map iteration order differs in each run
+	// and == of elements may have side effects)
+	for _, hash := range *m1.HashKeys {
+		pair1, ok := (*m1.Pairs)[hash]
+		if !ok {
+			continue
+		}
 		pair2, ok := (*m2.Pairs)[hash]
 		if !ok {
 			return object.BuiltInFalse
